@@ -267,7 +267,10 @@ def validLevel (n : Nat) : Bool :=
   n = lvlFast ∨ n = lvl1 ∨ n = lvl2 ∨ n = lvl3 ∨ n = lvl4 ∨ n = lvl5 ∨ n = lvl6 ∨ n = lvl7 ∨ n = lvl8 ∨ n = lvl9
 
 def applyOne (c : Cfg) : Opt → Except Err Cfg
-  | .blockSize n => if indexOf n > 0 then .ok { c with flags := blockSizeIndexSet c.flags (indexOf n).toUInt16 } else .error .badBlockSize
+  | .blockSize n =>
+    -- `lz4block.Index(size).IsValid()`: the four sizes of the frame format (8 MiB is legacy-only)
+    if indexOf n = 4 ∨ indexOf n = 5 ∨ indexOf n = 6 ∨ indexOf n = 7 then
+      .ok { c with flags := blockSizeIndexSet c.flags (indexOf n).toUInt16 } else .error .badBlockSize
   | .blockChecksum b => .ok { c with flags := blockChecksumSet c.flags b }
   | .checksum b => .ok { c with flags := contentChecksumSet c.flags b }
   | .size n => .ok { c with flags := sizeSet c.flags (n > 0), contentSize := n }
